@@ -288,13 +288,25 @@ ForeignVeto(o) ==
 (* "relations reject it" is read permissively: a called state is excused when *)
 (* the resolution of the whole called list (o.target0) or the resolution of   *)
 (* the surviving called states drops it.                                      *)
-C07_JudgedIndividually(fx, sch, topo, o) ==
+C07_JudgedIndividually(fx, sch, topo, hs, o) ==
   (o.kind = "tx" /\ o.mut.auto /\ ~ForeignVeto(o)) =>
     LET surv == SelectSeq(o.mut.called, LAMBDA s : SHas(o.target0, s) /\ ~OwnVeto(o, s))
         want == TargetStates(fx, sch, topo, surv \o o.before, o.before,
                              FALSE, o.mut.called)
-    IN \A i \in 1..Len(surv) :
-         SHas(want, surv[i]) => SHas(o.after, surv[i])
+        \* a scripted own negotiation handler of s that the transition had to ask
+        Rejecting(s) ==
+          \E v \in o.vetoedOnly :
+             /\ v[1] \in 1..Len(hs.binds) /\ v[2] \in hs.binds[v[1]].neg
+             /\ \/ v[2] = <<"enter", s>>
+                \/ (v[2][1] = "ss" /\ v[2][3] = s /\ SHas(o.before, v[2][2]) /\ v[2][2] # s)
+    IN /\ \A i \in 1..Len(surv) : SHas(want, surv[i]) => SHas(o.after, surv[i])
+       \* ... and a called state whose own handler says no does not end up active
+       /\ hs.on => \A i \in 1..Len(o.mut.called) :
+             LET s == o.mut.called[i] IN
+             \* (when some own handler did reject s, s may still come back through
+             \* another state's Add relation in the re-resolution: not judged)
+             (SHas(o.after, s) /\ ~SHas(o.before, s) /\ SHas(o.target0, s) /\ ~OwnVeto(o, s))
+                => ~Rejecting(s)
 
 ---------------------------------------------------------------------------
 (* C14 -- tracer reports.  o.tlog = sequence of callback names the recording  *)
